@@ -117,7 +117,41 @@ def st_AnnAssign(ex, node, st):
         yield st, Outcome(NORMAL)
         return
     fake = ast.Assign(targets=[node.target], value=node.value, lineno=node.lineno)
-    yield from st_Assign(ex, fake, st)
+    ty = _annotation_type(node.annotation)
+    for s, out in st_Assign(ex, fake, st):
+        # the declared type of a freshly built EMPTY container literal refines its static element types (assumed, as every
+        # annotation: PEP 484 annotations are not checked by CPython)
+        if ty is not None and out.kind == NORMAL and isinstance(node.target, ast.Name) and _is_empty_literal(node.value):
+            v = s.env.get(node.target.id)
+            if isinstance(v, Val) and strip_opt(v.ty)[0] == ty[0]:
+                s.env[node.target.id] = Val(v.t, ty)
+        yield s, out
+
+
+def _is_empty_literal(e):
+    return (isinstance(e, ast.Dict) and not e.keys) or (isinstance(e, ast.List) and not e.elts) or (
+        isinstance(e, ast.Call) and isinstance(e.func, ast.Name) and e.func.id in ("dict", "list", "set") and not e.args and not e.keywords)
+
+
+def _annotation_type(a):
+    """dict[K, V] / list[T] / set[T] / str / int / bool over these constructors -> engine type (None: not understood)."""
+    if isinstance(a, ast.Constant) and isinstance(a.value, str):
+        try:
+            a = ast.parse(a.value, mode="eval").body
+        except SyntaxError:
+            return None
+    if isinstance(a, ast.Name):
+        return {"str": STR, "int": INT, "bool": BOOL, "Any": ANY}.get(a.id)
+    if isinstance(a, ast.Subscript) and isinstance(a.value, ast.Name):
+        args = a.slice.elts if isinstance(a.slice, ast.Tuple) else [a.slice]
+        sub = [_annotation_type(x) or ANY for x in args]
+        if a.value.id == "dict" and len(sub) == 2:
+            return DICT(sub[0], sub[1])
+        if a.value.id == "list" and len(sub) == 1:
+            return SEQ(sub[0])
+        if a.value.id == "set" and len(sub) == 1:
+            return SET(sub[0])
+    return None
 
 
 def assign_to(ex, tgt, v, s: St):
@@ -480,6 +514,13 @@ def mutated_exprs(stmts):
 
 
 def havoc_for_loop(ex, body, st: St, extra_modifies=(), only=None):
+    clock0 = smt._clock[0]
+    s = _havoc_for_loop(ex, body, st, extra_modifies, only)
+    s.assume(*smt.birth_facts_since(clock0))
+    return s
+
+
+def _havoc_for_loop(ex, body, st: St, extra_modifies=(), only=None):
     """Forget everything the loop body may change: assigned locals and mutated containers.
     `only`: the loop's DECLARED frame (list of container values): exactly these are forgotten; every write of the body is
     then checked against the declaration (loop_frame_obligations)."""
@@ -489,6 +530,21 @@ def havoc_for_loop(ex, body, st: St, extra_modifies=(), only=None):
             s.env[name] = fresh_like(s.env[name], s, name)
     havoc_all = False
     refs = []
+    if only == "non-entry":
+        # declared frame "non-entry": the body writes only to objects allocated by this function.  All container
+        # components are replaced; entry-allocated references keep their contents (quantified, and known to the rewriter)
+        for kind, expr in mutated_exprs(body):
+            if kind == "attr" and expr.attr in s.heap.f:
+                s.heap = s.heap.with_field(expr.attr, z3.Const(smt.fresh_name(f"H_f_{expr.attr}"), smt.VV))
+        old = s.heap
+        new = old.havoc_all(fields=[])
+        r = z3.Const("fr_r", V)
+        for c in old.c:
+            smt.FRAME_OF[new.c[c].decl().name()] = old.c[c]
+            s.assume(z3.ForAll([r], z3.Implies(smt.Alloc0(r), new.c[c][r] == old.c[c][r]), patterns=[new.c[c][r]]))
+        s.heap = new
+        s.assume(*smt.heap_wellformed(new))
+        return s
     if only is not None:
         for kind, expr in mutated_exprs(body):
             if kind == "attr" and expr.attr in s.heap.f:
@@ -623,6 +679,8 @@ def loop_frame(ex, spec, s):
     """Values of the loop's declared `modifies` expressions, evaluated at the loop head (None when nothing is declared)."""
     if "modifies" not in spec:
         return None
+    if spec["modifies"] == "non-entry":
+        return "non-entry"
     out = []
     for m in spec["modifies"]:
         ex.pure_depth += 1
@@ -643,6 +701,10 @@ def loop_frame_obligations(ex, lname, spec, frame, w0, pre_fresh):
     for n, (kind, base, pc) in enumerate(ex.writes[w0:]):
         if kind.startswith("attr:"):
             continue  # field arrays assigned in the body are forgotten wholesale at the loop head
+        if frame == "non-entry":
+            ex.obligations.append(Obligation(f"{lname}.frame.write{n}[{kind}]", "loop-frame", pc, z3.Not(smt.Alloc0(base.t)),
+                                             {"clause": "loop writes only to objects allocated by this function", "target": str(base.t)}, aux=True))
+            continue
         local = z3.And(z3.Not(smt.Alloc0(base.t)), smt.SkFam(base.t) == 0, *[base.t != o for o in pre_fresh])
         goal = z3.Or(local, *[base.t == f.t for f in frame])
         ex.obligations.append(Obligation(f"{lname}.frame.write{n}[{kind}]", "loop-frame", pc, goal,
